@@ -169,11 +169,47 @@ pub fn bspldnev_single_dual2(
 
 /// A piecewise polynomial spline of given order and knot sequence.
 #[derive(Clone, Debug, Deserialize, Serialize)]
+#[serde(try_from = "PPSplineDataModel<T>")]
 pub struct PPSpline<T> {
     k: usize,
     t: Vec<f64>,
     c: Option<Array1<T>>,
     n: usize,
+}
+
+#[derive(Deserialize)]
+struct PPSplineDataModel<T> {
+    k: usize,
+    t: Vec<f64>,
+    c: Option<Array1<T>>,
+    n: usize,
+}
+
+impl<T> std::convert::TryFrom<PPSplineDataModel<T>> for PPSpline<T> {
+    type Error = String;
+
+    fn try_from(model: PPSplineDataModel<T>) -> Result<Self, Self::Error> {
+        // the same requirements as `PPSpline::new`, as errors instead of assertions
+        if model.t.len() < 2
+            || !zip(&model.t[1..], &model.t[..(model.t.len() - 1)]).all(|(a, b)| a >= b)
+        {
+            return Err(
+                "`t` must be a non-decreasing knot sequence of at least 2 knots.".to_string(),
+            );
+        }
+        if model.k > model.t.len() || model.n != model.t.len() - model.k {
+            return Err("`n` must equal the number of knots less the order `k`.".to_string());
+        }
+        if model.c.as_ref().is_some_and(|c| c.len() != model.n) {
+            return Err("`c` must contain `n` coefficients.".to_string());
+        }
+        Ok(PPSpline {
+            k: model.k,
+            t: model.t,
+            c: model.c,
+            n: model.n,
+        })
+    }
 }
 
 impl<T> PPSpline<T> {
